@@ -64,7 +64,42 @@ def other_operations(rng, tmpdir):
     return ops
 
 
+def narrow_arithmetic_stream(ctx):
+    """The same values held in a narrow and in a wide type, where differences of two pixels do not fit the narrow type
+    (int8 / int16 spread over their whole range) or are not exact in it (float32 values next to a decimal min_delta):
+    the dendrograms must be identical (differential, no model)."""
+    rng = ctx.rng('c15-narrow')
+    for it in range(80 if ctx.quick else 800):
+        n = rng.randint(3, 10)
+        mode = rng.choice(['int8', 'int16', 'float32', 'float32'])
+        if mode in ('int8', 'int16'):
+            info = np.iinfo(mode)
+            vals = [rng.randint(int(info.min) + 1, int(info.max)) for _ in range(n)]
+            kw = {'min_value': int(info.min), 'min_delta': rng.choice([0, 1, rng.randint(1, int(info.max)), rng.randint(int(info.max), 2 * int(info.max))])}
+            narrow, wide = np.array(vals, dtype=mode), [np.array(vals, dtype='int64'), np.array(vals, dtype='float64')]
+        else:
+            dl = rng.choice([0.7, 0.3, 0.1, 1.1, 0.2, 0.6])
+            vals = [float(np.float32(rng.randint(0, 20) * 0.1)) for _ in range(n)]
+            kw = {'min_value': -1.0, 'min_delta': dl}
+            narrow, wide = np.array(vals, dtype='float32'), [np.array(vals, dtype='float64')]
+        shape = (n,)
+        try:
+            ref = observe(Dendrogram.compute(wide[0], **kw), shape)
+            got = [observe(Dendrogram.compute(a, **kw), shape) for a in [narrow] + wide[1:]]
+        except Exception as e:
+            ctx.oracle_failure({'stream': 'narrow arithmetic', 'dtype': mode, 'vals': vals, 'kw': str(kw)}, ['compute raised %r' % (e,)])
+            continue
+        ctx.count('narrow_arithmetic/%s' % mode)
+        ctx.case_done(None, ('narrow', mode, tuple(vals), str(kw)) if len(ref[0]) >= 2 else None)
+        if any(g != ref for g in got):
+            ctx.oracle_failure({'stream': 'narrow arithmetic', 'dtype': mode, 'vals': vals, 'kw': str(kw)},
+                               ['the same values as %s and as %s give different dendrograms: %s vs %s' % (mode, wide[0].dtype, got[0][0], ref[0])])
+
+
 def explore(ctx):
+    narrow_arithmetic_stream(ctx)
+    from . import grid_common
+    grid_common.reused_adjacency_stream(ctx, 100 if ctx.quick else 1000)
     rng = ctx.rng('c15')
     cases, refs = [], []
     tmpdir = tempfile.mkdtemp(prefix='verif-c15-', dir=dc.SCRATCH)
